@@ -1019,7 +1019,9 @@ def gen_grad_step(ad: ast.AST) -> str:
     want = ["if has_gradient_rule(expr):\n    return apply_gradient_rule(expr, wrt)",
             "depth = _estimate_tree_depth(expr)",
             "if depth >= _RECURSION_THRESHOLD:\n    return _gradient_iterative(expr, wrt)",
-            "return _gradient_cached(expr, wrt)"]
+            # the recursive differentiator, with the explicit-stack one as fall-back when CPython's stack overflows (both
+            # compute the same expression: C15.gradIter_eq)
+            "try:\n    return _gradient_cached(expr, wrt)\nexcept RecursionError:\n    return _gradient_iterative(expr, wrt)"]
     if [ast.unparse(s) for s in gb] != want:
         raise TranslateError("gradient(): the three-tier dispatch has changed shape")
     branches = {}
